@@ -321,6 +321,10 @@ structure HandlerFacts where
   /-- every `Next` that `Next::run` builds for a middleware carries `ctx: self.ctx`, and the leaf is
       called through `handle_with_ctx` when a context is attached -/
   nextForwardsCtx : Bool
+  /-- body gate of `RegisteredStruct::handle` and of `JsonTypedAdapter::handle` (inline matches) -/
+  structGate : Gate
+  structEmptyBodyIsRead : Bool
+  adapterGate : Gate
   deriving Repr
 
 end Repe.Router
